@@ -776,6 +776,13 @@ class Interp:
 
     def eval_call(self, st: State, node: ast.Call):
         f = node.func
+        if (isinstance(f, ast.Name) and f.id == "getattr" and (len(node.args) == 2 or (len(node.args) == 3 and self.rule.getattr_default_transparent)) and not node.keywords and isinstance(node.args[1], ast.Constant)
+                and isinstance(node.args[1].value, str) and node.args[1].value.isidentifier() and self.var("getattr") not in st.env):
+            # getattr(x, "name"[, default]) where the rule knows attribute `name` of x: the attribute access x.name
+            fake = ast.copy_location(ast.Attribute(value=node.args[0], attr=node.args[1].value, ctx=ast.Load()), node)
+            bvals, braises = self.eval(st, node.args[0])
+            if bvals and all(self.rule.getattr(self, s_, fake, b_) is not None for s_, b_ in bvals):
+                return [(s_, s_.view(self.rule.getattr(self, s_, fake, b_))) for s_, b_ in bvals], braises
         recvs, raises = [(st, None)], []
         if isinstance(f, ast.Attribute):
             recvs, raises = self.eval(st, f.value)
@@ -784,6 +791,43 @@ class Interp:
             argsets, r = self.eval_args(s, node)
             raises += r
             for s2, pos, kw in argsets:
+                if (isinstance(f, ast.Name) and f.id == "dict" and not pos and kw and "**" not in kw and "*" not in kw
+                        and self.var("dict") not in s2.env and (self.m.resolve_local(self.module, "dict") or "builtins.dict").startswith("builtins")):
+                    # dict(a=x, b=y) is the display {"a": x, "b": y}
+                    out.append((s2, dict_av(dict(kw), open_=False)))
+                    continue
+                if recv is not None and recv.kind == "dict" and isinstance(f, ast.Attribute) and isinstance(f.value, ast.Name) and self.var(f.value.id) in s2.env:
+                    dk = self.var(f.value.id)
+                    if f.attr == "update" and "*" not in kw and "**" not in kw and (not pos or (len(pos) == 1 and pos[0].kind == "dict" and not pos[0].val[1])):
+                        # d.update(a=x, b=y) / d.update({...}) on a tracked dictionary is d["a"] = x; d["b"] = y
+                        sl = dslots(recv)
+                        if pos:
+                            sl.update(dslots(pos[0]))
+                        sl.update(kw)
+                        s3 = s2.copy()
+                        s3.env[dk] = replace(recv, val=(tuple(sorted(sl.items(), key=lambda kv: str(kv[0]))), recv.val[1]))
+                        out.append((s3, const(None)))
+                        continue
+                    if f.attr == "setdefault" and len(pos) == 2 and not kw and pos[0].kind == "const":
+                        # d.setdefault(k, v) is `if k not in d: d[k] = v` followed by d[k]
+                        key, sl = pos[0].val, dslots(recv)
+                        if key in sl:
+                            out.append((s2, s2.view(sl[key])))
+                            continue
+                        memo = ("cmp", repr(key), "in", recv.sym) if recv.sym else None
+                        known = s2.ts.get(memo) if memo else None
+                        for present in ((True, False) if (recv.val[1] and known is None) else ((known,) if recv.val[1] else (False,))):
+                            s3 = s2.copy()
+                            if memo and recv.val[1]:
+                                s3.ts[memo] = present
+                            if present:
+                                out.append((s3, AV("unk", sym=f"{recv.sym or 'dict'}[{key!r}]@entry", tags=frozenset({"entry"}))))
+                            else:
+                                sl2 = dict(sl)
+                                sl2[key] = pos[1]
+                                s3.env[dk] = replace(recv, val=(tuple(sorted(sl2.items(), key=lambda kv: str(kv[0]))), recv.val[1]))
+                                out.append((s3, pos[1]))
+                        continue
                 res = self.rule.call(self, s2, node, recv, pos, kw)
                 if res is None:
                     res = self.default_call(s2, node, recv, pos, kw)
@@ -1378,6 +1422,7 @@ class BaseRule:
     wants_subscript = False  # rule.subscript(it, st, node, base, parts, is_slice) composes non-dict subscripts
     model_asserts = False  # True: `assert t` is `if not t: raise AssertionError` (default: asserts are skipped)
     wants_compose = False  # rule.compose(it, st, node, [(child_node, av)...]) composes List/BinOp/JoinedStr/... values
+    getattr_default_transparent = False  # True: getattr(x, "a", default) is x.a whenever the rule models attribute `a` of x (it is always present)
 
     def subscript(self, it, st, node, base, parts, is_slice):
         return None
